@@ -32,6 +32,14 @@ KEX_TYPES = {20, 21} | set(range(30, 50))
 IMPORTANT = {1, 2, 3, 4, 5, 6, 7, 50, 51, 52, 53, 60, 61, 63, 66, 80, 81, 82} | set(range(90, 101))
 
 
+# well-framed plaintext packets with an EMPTY payload: packet_length = 1 + padding, padding_length, padding
+SHAPES = {
+    "empty-pad11": bytes([0, 0, 0, 12, 11]) + b"\0" * 11,
+    "empty-pad3": bytes([0, 0, 0, 4, 3]) + b"\0" * 3,
+    "empty-pad251": bytes([0, 0, 0, 252, 251]) + b"\0" * 251,
+}
+
+
 def type_payload(rng, t):
     if t == 80:
         return L.msg(80, "pv@verif", True).asbytes()[1:]
@@ -106,8 +114,8 @@ def handshake(ctx, kex, strict_c, strict_s, edit, short_timeout=False):
             else L.exc_class(client_exc) if (name == "client" and client_exc is not None
                                              and "imeout" not in str(client_exc)
                                              and "Negotiation failed" not in str(client_exc)) else "ended",
-            "site": exc_site(t.saved_exception) if t.saved_exception is not None
-            else exc_site(client_exc) if (name == "client" and client_exc is not None) else "-",
+            "site": exc_site(L.root_exc(t.saved_exception)) if t.saved_exception is not None
+            else exc_site(L.root_exc(client_exc)) if (name == "client" and client_exc is not None) else "-",
             "done": 1 if t.initial_kex_done else 0,
             "agreed": 1 if t.agreed_on_strict_kex else 0,
             "seq_in": L.seq_in(t), "seq_out": L.seq_out(t),
@@ -235,7 +243,8 @@ def run(ctx):
                 "directions, strict on/off per side, per kex method; distinct = (kex, strict pair, edit, direction, "
 "position); every non-kex message type 1..255 injected into a strict exchange in both directions (types with "
                 "a handler anywhere: every position; others: one random position), the victim's plaintext reactions "
-                "hidden from the other side; non-trivial = the edit changes what a peer receives before NEWKEYS. Plus sessions with three "
+                "hidden from the other side; also well-framed packets with an empty payload (three paddings) at every "
+                "position; non-trivial = the edit changes what a peer receives before NEWKEYS. Plus sessions with three "
                 "re-exchanges (either side initiating) against a specification-conformant peer whose later KEXINITs "
                 "omit, repeat or newly add the kex-strict marker")
     ctx.trust("pv/lib_runloop.py Relay/Tap (plaintext packet parser, packetizer taps)",
@@ -262,6 +271,12 @@ def run(ctx):
                         jobs.append((kex, sc, ss, ("inject", nm, d, pos)))
                     if (sc == ss and (kex == kexes[0] or ctx.thorough)):
                         jobs.append((kex, sc, ss, ("delete", "-", d, pos)))
+    # packets that have no type at all: empty payload (minimal, short and long padding) — well framed, so they advance
+    # the sequence number, but there is nothing to dispatch
+    for d in ("c2s", "s2c"):
+        for shape in SHAPES:
+            for pos in (0, 1, 2):
+                jobs.append((kexes[0], True, True, ("inject", "SHAPE:" + shape, d, pos)))
     # every message type that is not a kex message, injected into a strict initial exchange, both directions; the man
     # in the middle also swallows whatever the victim answers in plaintext, so a reaction cannot give the edit away
     kex0 = kexes[0]
@@ -288,7 +303,7 @@ def run(ctx):
             kex, sc, ss, ed = jobs[i]
 
             def edit(direction, idx, t, pkt, ed=ed):
-                if ed is not None and ed[1].startswith("TYPE:") and direction != ed[2] and t not in KEX_TYPES:
+                if ed is not None and ed[1].startswith(("TYPE:", "SHAPE:")) and direction != ed[2] and t not in KEX_TYPES:
                     return []            # the victim's plaintext reaction never reaches the other side
                 if ed is None or direction != ed[2] or idx != ed[3]:
                     return [pkt]
@@ -298,6 +313,8 @@ def run(ctx):
                     return [pkt, pkt]
                 if ed[1].startswith("TYPE:"):
                     return [L.plain_packet(int(ed[1][5:]), bytes.fromhex(ed[4])), pkt]
+                if ed[1].startswith("SHAPE:"):
+                    return [SHAPES[ed[1][6:]], pkt]
                 t2, pl = INJECT[ed[1]]
                 return [L.plain_packet(t2, pl), pkt]
 
@@ -428,6 +445,11 @@ def run(ctx):
                 # the harness's own barrier message (sent from the user thread, not by the loop)
                 impl["tx"].pop()
                 impl["seq_out"] -= 1
+            if impl["err"] == "internal" and "@packet.py:read_message" in o["site"] and model["err"] == "-":
+                # a packet without a type byte: read_message itself fails (IndexError), the loop never sees a packet
+                ctx.dist("ended-by-packet-layer:no-type-byte")
+                impl["err"], impl["active"] = "-", 1
+                impl["seq_in"] -= 1          # it had been counted before the type byte was looked for
             if impl["err"] == "ssh" and "@packet.py:" in o["site"] and model["err"] == "-":
                 # the packet layer gave up (MAC/framing of the encrypted phase after a shifted or re-keyed stream):
                 # C02's subject; the loop model is compared up to that point
